@@ -1,0 +1,10 @@
+//! Verification hooks (cargo feature `verif-hooks`, never enabled in release builds).
+//!
+//! `core` is `pub(crate)`: the PAM entry points in `pam/mod.rs` need a live `libpam` handle and a
+//! fixed configuration path.  This module only re-exports the crate-private functions and types
+//! of `core` unchanged, so that an external harness can drive them with its own `PamHandler`
+//! and its own resolver socket.  Add-only: nothing here alters behaviour.
+pub use crate::core::{
+    acct_mgmt, sm_authenticate, sm_authenticate_connected, sm_authenticate_fallback,
+    sm_open_session, PamHandler, RequestOptions, CLIENT,
+};
